@@ -4,7 +4,7 @@
    N, positive, Z, nat stay the extracted inductive datatypes. *)
 From Coq Require Extraction.
 From Coq Require Import ExtrOcamlBasic.
-From PL Require Import Model.Base Model.Order Model.Queue Model.Level Model.Conc Spec.MatchSpec Spec.Iface Spec.Priority Spec.QueueSpec.
+From PL Require Import Model.Base Model.Order Model.Queue Model.Level Model.Conc Model.ConcQ Spec.MatchSpec Spec.Iface Spec.Priority Spec.QueueSpec.
 
 Extraction Language OCaml.
 
@@ -18,4 +18,5 @@ Extraction "../modelrun/model.ml"
   i_cons_b same_identity_b
   shared_of_level level_of_shared thread_init accept exec cstep quiescent thread_finished ev_eqb
   step_f step_q busy_after abs
-  inew iadd imatch iupdate live_tickets.
+  inew iadd imatch iupdate live_tickets
+  qshared_of_queue queue_of_qshared qthread_init qaccept qcstep qquiescent.
